@@ -225,7 +225,7 @@ def has_kind(case, kinds):
 
 def check_c11(tier, seed):
     acc = Acc("C11", tier, seed, ["restart_differs_facts", "reopen_failed", "not_a_set", "observe_failed"], "exploration")
-    n_rand = 1500 if tier == "quick" else 60000
+    n_rand = 1500 if tier == "quick" else 24000
     max_len_enum = 4 if tier == "quick" else 5
     # bounded sub-space, walked completely: all histories of length <= max_len over the 7-symbol alphabet
     n_enum = sum(7 ** l for l in range(1, max_len_enum + 1))
@@ -253,7 +253,7 @@ def check_c11(tier, seed):
 
 def check_c12(tier, seed):
     acc = Acc("C12", tier, seed, ["restart_differs_facts", "reopen_failed", "not_a_set", "observe_failed", "op_failed"], "exploration")
-    n = 3000 if tier == "quick" else 120000
+    n = 3000 if tier == "quick" else 36000
     cases = gen("c12", seed, 0, n)
     for c in cases:
         c["check_model"] = False
@@ -554,7 +554,7 @@ def check_c17(tier, seed):
     acc = Acc("C17", tier, seed, ["restart_differs_facts", "restart_differs_rules", "restart_differs_schemas", "reopen_failed",
                                   "live_differs_from_model_facts", "live_differs_from_model_rules", "live_differs_from_model_schemas",
                                   "not_a_set", "observe_failed", "op_result_class", "report_mismatch"], "exploration")
-    n = 1500 if tier == "quick" else 80000
+    n = 1500 if tier == "quick" else 18000
     cases = gen("c17", seed, 0, n)
     outs = execute(cases)
     determinism_spot_check(cases, outs)
@@ -568,7 +568,7 @@ def check_c17(tier, seed):
     # schedule half: insert || drop || re-create under seeded schedules, then (half of the runs) a crash
     cacc = ConcAcc("C17", tier, seed, ["not_linearizable", "recovered_not_linearizable", "deadlock", "not_a_set", "reopen_failed_after_crash", "observe_failed",
                                        "post:restart_differs_facts", "post:reopen_failed"], "exploration")
-    conc_batch(cacc, [("c17b", 450 if tier == "quick" else 30000)], seed, crash_share_num=1, crash_share_den=2,
+    conc_batch(cacc, [("c17b", 450 if tier == "quick" else 5000)], seed, crash_share_num=1, crash_share_den=2,
                interesting=("unlink", "rmdir", "kg-metadata", "shard-meta", "wal"))
     cacc.conc_extra()
     # merge the schedule half into the main accumulator
@@ -655,7 +655,7 @@ def check_c14(tier, seed):
                "query_differs_from_snapshot", "query_failed", "op_result_class", "not_a_set", "observe_failed", "reopen_failed", "op_failed",
                "restart_differs_facts"]
     acc = Acc("C14", tier, seed, oracles, "exploration")
-    n = 1500 if tier == "quick" else 50000
+    n = 1500 if tier == "quick" else 15000
     bases = gen("c14", seed, 0, n)
     pairs = []
     cases = []
@@ -825,7 +825,7 @@ def check_c15(tier, seed):
                "recovered:acked_update_lost", "recovered:stale_update_resurfaced", "recovered:phantom_update", "recovered2:acked_update_lost",
                "recovered2:stale_update_resurfaced", "recovered2:phantom_update", "reopen_failed", "post:reopen_failed", "post:restart_differs_facts", "post:op_failed"]
     acc = ConcAcc("C15", tier, seed, oracles, "exploration")
-    n = 800 if tier == "quick" else 60000
+    n = 800 if tier == "quick" else 9000
     conc_batch(acc, [("c15p", n), ("c15e", n)], seed)
     acc.conc_extra()
     rule = ("level 1: 2-3 simulated threads x 1-3 operations {append (unique tuples, +1/-1), flush, compact} on 1-2 shards of the real FilePersist, buffer_size in {1,2,3,10000}; "
@@ -840,16 +840,16 @@ def check_c15(tier, seed):
 def check_c19(tier, seed):
     oracles = ["not_linearizable", "deadlock", "not_a_set", "observe_failed", "open_failed", "panic", "harness"]
     acc = ConcAcc("C19", tier, seed, oracles, "exploration")
-    n = 700 if tier == "quick" else 50000
+    n = 700 if tier == "quick" else 8000
     conc_batch(acc, [("c19b", n)], seed, crash_share_num=0)
     acc.conc_extra()
     # history half: sequential histories with incremental maintenance switched on at a seeded step and consistent reads compared with the model
-    hcases = gen("c18", seed + 1000, 0, 300 if tier == "quick" else 12000)
+    hcases = gen("c18", seed + 1000, 0, 300 if tier == "quick" else 3000)
     # dedicated mirror histories: tiny tuple domain, every write path (engine batches with in-batch repeats, delete requests naming a tuple
     # several times, handler statements, conditional deletes, updates, large batches), a consistent read after every write
-    hcases += gen("c19a", seed, 0, 1200 if tier == "quick" else 60000)
+    hcases += gen("c19a", seed, 0, 1200 if tier == "quick" else 15000)
     # worker-batching family at the IncrementalEngine API: command batches built on purpose behind the parked worker
-    hcases += gen("c19w", seed, 0, 400 if tier == "quick" else 20000)
+    hcases += gen("c19w", seed, 0, 400 if tier == "quick" else 4000)
     houts = execute(hcases, timeout_s=300)
     acc.violation_oracles |= {"incremental_read_differs_from_relation", "incremental_read_failed", "persistent_facts_differ_from_model", "report_mismatch", "reopen_failed"}
     reads = 0
@@ -877,8 +877,8 @@ def check_c19(tier, seed):
 def check_c20(tier, seed):
     oracles = ["not_linearizable", "deadlock", "not_a_set", "observe_failed", "open_failed"]
     acc = ConcAcc("C20", tier, seed, oracles, "exploration")
-    n = 1800 if tier == "quick" else 120000
-    nh = 1200 if tier == "quick" else 80000
+    n = 1800 if tier == "quick" else 18000
+    nh = 1200 if tier == "quick" else 12000
     conc_batch(acc, [("c20", n), ("c20h", nh), ("c20hw", nh // 3)], seed, crash_share_num=0)
     acc.conc_extra()
     rule = ("1-2 writers issuing multi-tuple inserts (2-3 fresh tuples each), deletes, register/drop of a copy rule, and 1-2 readers reading the whole relation through the "
@@ -958,7 +958,7 @@ def check_c32(tier, seed):
     oracles = ["report_mismatch", "persistent_facts_differ_from_model", "not_a_set", "stateless_query_differs_from_fresh_evaluation", "reopen_failed",
                "observe_failed", "open_failed", "insert_rejected_without_schema", "persistent_rules_differ_from_model"]
     acc = HAcc("C32", tier, seed, oracles, "exploration")
-    n = 2000 if tier == "quick" else 100000
+    n = 2000 if tier == "quick" else 24000
     cases = gen("c32", seed, 0, n)
     outs = execute(cases, timeout_s=240)
     determinism_spot_check(cases, outs, k=10)
@@ -981,7 +981,7 @@ def check_c33(tier, seed):
     oracles = ["schema_violation_accepted", "conforming_insert_rejected", "insert_rejected_without_schema", "persistent_facts_differ_from_model", "not_a_set",
                "reopen_failed", "observe_failed", "open_failed", "stateless_query_differs_from_fresh_evaluation"]
     acc = HAcc("C33", tier, seed, oracles, "exploration")
-    n = 2500 if tier == "quick" else 100000
+    n = 2500 if tier == "quick" else 30000
     cases = gen("c33", seed, 0, n)
     outs = execute(cases, timeout_s=240)
     determinism_spot_check(cases, outs, k=10)
@@ -1001,7 +1001,7 @@ def check_c10(tier, seed):
                "persistent_facts_differ_from_model", "persistent_rules_differ_from_model", "session_report_mismatch", "not_a_set", "observe_failed", "open_failed",
                "insert_rejected_without_schema", "conforming_insert_rejected"]
     acc = HAcc("C10", tier, seed, oracles, "exploration")
-    n = 1800 if tier == "quick" else 60000
+    n = 1800 if tier == "quick" else 18000
     cases = gen("c10", seed, 0, n)
     outs = execute(cases, timeout_s=300)
     determinism_spot_check(cases, outs, k=8)
@@ -1021,7 +1021,7 @@ def check_c18(tier, seed):
     oracles = ["stateless_query_differs_from_fresh_evaluation", "request_local_query_differs_from_fresh_evaluation", "persistent_facts_differ_from_model",
                "persistent_rules_differ_from_model", "not_a_set", "observe_failed", "open_failed", "panic"]
     acc = HAcc("C18", tier, seed, oracles, "exploration")
-    n = 1800 if tier == "quick" else 60000
+    n = 1800 if tier == "quick" else 18000
     cases = gen("c18", seed, 0, n)
     outs = execute(cases, timeout_s=300)
     determinism_spot_check(cases, outs, k=8)
@@ -1042,7 +1042,7 @@ def check_c04(tier, seed):
     oracles = ["stateless_query_differs_from_fresh_evaluation", "request_local_query_differs_from_fresh_evaluation", "persistent_facts_differ_from_model",
                "persistent_rules_differ_from_model", "not_a_set", "observe_failed", "open_failed", "panic", "reopen_failed"]
     acc = HAcc("C04", tier, seed, oracles, "exploration")
-    n = 900 if tier == "quick" else 40000
+    n = 900 if tier == "quick" else 9000
     cases = gen("c04", seed, 0, n)
     outs = execute(cases, timeout_s=300)
     determinism_spot_check(cases, outs, k=8)
@@ -1068,7 +1068,7 @@ C25_ORACLES = ["insert_acceptance_differs", "tombstones_after_rebuild", "save_lo
 
 def vec_check(prop, oracles, tier, seed, rule, entropy_seeds):
     acc = Acc(prop, tier, seed, oracles, "exploration")
-    n_hist = (300 if tier == "quick" else 12000)
+    n_hist = (300 if tier == "quick" else 3000)
     hist = gen("vec", seed, 0, n_hist)
     cases = []
     for h in hist:
@@ -1115,7 +1115,7 @@ def check_c26(tier, seed):
     oracles = ["lsh_bucket_depends_on_cache_state", "deadlock", "panic", "law_symmetry", "law_non_negative", "law_identity", "law_cosine_range",
                "law_quantize_roundtrip", "law_probes_start", "law_probes_distinct", "law_probes_hamming_order"]
     acc = ConcAcc("C26", tier, seed, oracles, "exploration")
-    n = 4000 if tier == "quick" else 200000
+    n = 4000 if tier == "quick" else 60000
     cases = gen("lsh", seed, 0, n)
     outs = execute(cases, timeout_s=120)
     determinism_spot_check(cases, outs, k=10)
